@@ -653,8 +653,10 @@ def normalise_names(trees: Dict[str, ast.Module], anchors: Set[str]) -> List[str
                 defined.add(n.name)
     by_stem: Dict[str, List[str]] = {}
     for a in anchors:
-        if len(a.strip("_")) >= 5:
-            by_stem.setdefault(a.strip("_"), []).append(a)
+        st_ = a.strip("_")
+        # only unmistakable function names: several words, or long
+        if len(st_) >= 5 and ("_" in st_ or len(st_) >= 12):
+            by_stem.setdefault(st_, []).append(a)
     ren: Dict[str, str] = {}
     for f in sorted(defined):
         if f in anchors or f.startswith("__"):
